@@ -66,6 +66,33 @@ def load_bytes(xml: bytes, prefix, root="CCSDSPacket"):
     return XtcePacketDefinition.from_xtce(io.BytesIO(xml), xtce_ns_prefix=prefix, root_container_name=root)
 
 
+def load_form(xml: bytes, prefix, root, form: int):
+    """The same document handed to the loader in the forms it accepts: in-memory binary file, binary file object, text file object, str path,
+    pathlib.Path."""
+    from space_packet_parser.xtce.definitions import XtcePacketDefinition
+    if form == 0:
+        return load_bytes(xml, prefix, root)
+    import pathlib
+    path = os.path.join(VERIF_ROOT, ".work", f"c16_{os.getpid()}.xml")
+    os.makedirs(os.path.dirname(path), exist_ok=True)
+    with open(path, "wb") as f:
+        f.write(xml)
+    try:
+        if form == 1:
+            with open(path, "rb") as f:
+                return XtcePacketDefinition.from_xtce(f, xtce_ns_prefix=prefix, root_container_name=root)
+        if form == 2:
+            with open(path, "r", encoding="utf-8") as f:
+                return XtcePacketDefinition.from_xtce(f, xtce_ns_prefix=prefix, root_container_name=root)
+        if prefix == "xtce" and root == "CCSDSPacket":
+            # the documented front door for the conventional prefix and root (the path is re-used from load to load)
+            import space_packet_parser
+            return space_packet_parser.load_xml(path if form == 3 else pathlib.Path(path))
+        return XtcePacketDefinition.from_xtce(path if form == 3 else pathlib.Path(path), xtce_ns_prefix=prefix, root_container_name=root)
+    finally:
+        os.unlink(path)
+
+
 def canon_digest(defn):
     return digest(repr(canon_definition(defn)))
 
@@ -110,13 +137,15 @@ def _task_spellings(task):
         for style in task["styles"]:
             prefix = ns_prefix_arg(style)
             variants = [(None, False), (None, True), ("all", False), ("all", True)] + [({i}, ws) for i in task["positions"] for ws in task["ws"]]
-            for comments, ws in variants:
+            variants = [v + ("lower",) for v in variants] + [(None, False, "title"), (None, True, "upper"), ("all", False, "upper"), ("all", True, "title")]
+            for comments, ws, bool_case in variants:
                 case = {"doc": di, "style": style, "comments": "all" if comments == "all" else sorted(comments) if comments else None,
-                        "whitespace": ws}
-                xml = render_xml(doc, style, comments=comments, whitespace=ws)
+                        "whitespace": ws, "bool_case": bool_case}
+                xml = render_xml(doc, style, comments=comments, whitespace=ws, bool_case=bool_case)
                 t.evals += 1
+                case["form"] = ("BytesIO", "binary file object", "text file object", "str path", "pathlib.Path")[t.evals % 5]
                 try:
-                    d = load_bytes(xml, prefix, doc.root)
+                    d = load_form(xml, prefix, doc.root, t.evals % 5)
                     got = canon_digest(d)
                 except Exception as e:  # noqa: BLE001
                     t.outcomes["load-raised"] += 1
@@ -298,7 +327,7 @@ def run(ctx):
         "exhaustive": True,
         "bound": (f"spellings: {len(docs_)} base documents x 6 namespace renderings (prefix xtce, prefix q, an upper-case prefix XTCE, default namespace, none, none + xmlns:xsi) x a comment at every inter-element position "
                   f"({'every position for prefix xtce/default/none, every third for q and none+xsi' if ctx.quick else 'every position'}), all at once, "
-                  f"x whitespace variants; histories: every sequence of <= {3 if ctx.quick else 4} operations over a {nops}-operation menu "
+                  f"x whitespace variants x boolean attribute spellings true, True, TRUE, handed over in rotation as BytesIO / binary file object / text file object / str path / pathlib.Path; histories: every sequence of <= {3 if ctx.quick else 4} operations over a {nops}-operation menu "
                   "(11 successful loads in different namespace conventions, two of them of documents with identical names and shape but different content, 3 wrong-prefix loads, 4 loads that fail late inside the container/parameter set, 2 malformed inputs) followed by every target load (histories of length 4: every third target); "
                   "breadth-first closure over the real class-level namespace state to a fixed point"),
         "rule": ("one evaluation = one load compared with the fresh-interpreter canonical form; states = reachable class-level (nsmap, prefix) states "
@@ -324,9 +353,10 @@ def replay(case):
     comments = case.get("comments")
     comments = "all" if comments == "all" else set(comments) if comments else None
     doc = base_docs()[case["doc"]]
-    xml = render_xml(doc, case["style"], comments=comments, whitespace=case["whitespace"])
+    xml = render_xml(doc, case["style"], comments=comments, whitespace=case["whitespace"], bool_case=case.get("bool_case", "lower"))
     try:
-        d = load_bytes(xml, ns_prefix_arg(case["style"]), doc.root)
+        forms = ("BytesIO", "binary file object", "text file object", "str path", "pathlib.Path")
+        d = load_form(xml, ns_prefix_arg(case["style"]), doc.root, forms.index(case["form"]) if case.get("form") in forms else 0)
     except Exception as e:  # noqa: BLE001
         return {"sig": {"kind": "spelling-load-failed", "exc": type(e).__name__, "style": case["style"] if comments is None else "*",
                         "comment": comments is not None}, "case": case, "observed": str(e)[:200]}
